@@ -314,6 +314,15 @@ pub fn build(rng: &mut Rng, tier: Tier) -> Option<Built> {
     })
 }
 
+/// a memory limit that just covers the window a successful decode needs (min(dictionary, bytes
+/// produced), plus 0, 1 or 17); None where the expected outcome is an error
+fn tight_limit(exp: &Expect, dict_eff: u64, salt: usize) -> Option<usize> {
+    match exp {
+        Expect::Ok(v) | Expect::Either(v) => Some((v.len() as u64).min(dict_eff) as usize + [0usize, 1, 17][salt % 3]),
+        Expect::Err(_) => None,
+    }
+}
+
 /// Feed a whole file to the streaming decoder under a chunking; returns the
 /// verdict and the bytes the sink holds afterwards.
 pub fn run_stream(file: &[u8], options: &Options, cuts: &[usize]) -> (Verdict, Vec<u8>) {
@@ -455,6 +464,14 @@ fn fam_table(ctx: &CaseCtx, cov: &mut Cov) -> CaseOut {
             o1.memlimit = Some(usize::MAX);
             cov.name("oneshot_runs_with_generous_memlimit", 1);
         }
+        3 => {
+            // a limit that just covers the window this decode needs - below the dictionary and
+            // often below what the header's size field announces: it must not bind
+            if let Some(m) = tight_limit(&exp, b.dict_eff, b.file.len()) {
+                o1.memlimit = Some(m);
+                cov.name("oneshot_runs_with_a_memlimit_just_covering_the_window_needed", 1);
+            }
+        }
         _ => {}
     }
     let c = sut::decode(Entry::Lzma, &b.file, &o1, ReaderKind::from_selector(case_hash(&[&b.file])), &sink, &obs);
@@ -487,7 +504,14 @@ fn fam_table(ctx: &CaseCtx, cov: &mut Cov) -> CaseOut {
         v.sort();
         v
     };
-    let (sv, sgot) = run_stream(&b.file, &b.options, &cuts);
+    let mut so = b.options.clone();
+    if b.file.len() % 5 == 2 {
+        if let Some(m) = tight_limit(&exp, b.dict_eff, b.file.len()) {
+            so.memlimit = Some(m);
+            cov.name("stream_runs_with_a_memlimit_just_covering_the_window_needed", 1);
+        }
+    }
+    let (sv, sgot) = run_stream(&b.file, &so, &cuts);
     out.evals += 1;
     ctx.say(format!("stream (cuts {:?}): {} with {} bytes", cuts, sv.short(), sgot.len()));
     judge(&mut out, &b, &exp, "stream", &sv, &sgot, &b.file);
